@@ -110,6 +110,9 @@ func init() {
 		if len(include) > 0 {
 			args = append(args, "--include-ext", strings.Join(include, ","))
 		}
+		if sortBy := in.Nth(2).Str(); sortBy != "" {
+			args = append(args, "--sort", sortBy)
+		}
 		cmd := exec.Command(bin, args...)
 		cmd.Dir = cwd
 		cmd.Env = append(os.Environ(), "TMPDIR="+tmp, "HOME="+tmp)
